@@ -2164,6 +2164,14 @@ func (app *App) getNodeState(host string) *nodestate.NodeState {
 	}
 	nodeState := new(nodestate.NodeState)
 	nodeState.ShowOnlyGTIDDiff = app.config.ShowOnlyGTIDDiff
+	if node == nil {
+		// the host was removed from the cluster (by another loop refreshing the registry) after its name was listed
+		nodeState.CheckAt = time.Now()
+		nodeState.CheckBy = app.config.Hostname
+		nodeState.Error = fmt.Sprintf("host %s is not registered", host)
+		app.logger.Error().Msgf("node %s: %s", host, nodeState.Error)
+		return nodeState
+	}
 	err := func() error {
 		nodeState.CheckAt = time.Now()
 		nodeState.CheckBy = app.config.Hostname
